@@ -457,3 +457,138 @@ def corruptions(gen, cid, o):
             out.append(("bad-dict", s["name"], x))
     r.shuffle(out)
     return out
+
+
+# ------------------------------------------------------- co-constraint corruption
+
+import re as _re
+
+_LIST = r"\[([^\]]*)\]"
+
+
+def _names(s):
+    return _re.findall(r"'([^']+)'", s)
+
+
+def coconstraint_corruptions(gen, cid, o):
+    """Single-point violations of the inter-property constraints the frozen spec records for the class
+    (at-least-one, mutually exclusive, dependency, ordered timestamps, and the special cases): list of
+    ("co-constraint", label, object)."""
+    r = gen.rng
+    c = gen.classes[cid]
+    src = c.get("constraints_src") or ""
+    slots = {s["name"]: s for s in c["slots"]}
+    out = []
+
+    def val(name, ctx=None):
+        return gen.value(slots[name]["kind"], 1, ctx or {"safe": True, "owner_type": c["type"]})
+
+    for m in _re.finditer(r"_check_at_least_one_property\(" + _LIST + r"\)", src):
+        ps = _names(m.group(1))
+        if not any(slots.get(p, {}).get("required") for p in ps):
+            x = {k: v for k, v in o.items() if k not in ps}
+            out.append(("co-constraint", "none-of:" + ",".join(ps), x))
+    if "_check_at_least_one_property()" in src or c["family"] == "ext":
+        keep = {"type", "extensions", "id", "spec_version", "defanged"}
+        x = {k: v for k, v in o.items() if k in keep or slots.get(k, {}).get("required")}
+        if x != o:
+            out.append(("co-constraint", "no-property", x))
+    for m in _re.finditer(r"_check_mutually_exclusive_properties\(" + _LIST + r"\)", src):
+        ps = [p for p in _names(m.group(1)) if p in slots]
+        x = dict(o)
+        try:
+            for p in ps:
+                if p not in x:
+                    v = val(p)
+                    if v is not None:
+                        x[p] = v
+            if sum(1 for p in ps if p in x) > 1:
+                out.append(("co-constraint", "both:" + ",".join(ps), x))
+        except (ValueError, IndexError, KeyError):
+            pass
+    for m in _re.finditer(r"_check_properties_dependency\(" + _LIST + r", " + _LIST + r"\)", src):
+        ps, ds = _names(m.group(1)), _names(m.group(2))
+        x = dict(o)
+        try:
+            for p in ps:
+                x.pop(p, None)
+            d = r.choice([d for d in ds if d in slots])
+            if d not in x:
+                x[d] = val(d)
+            if not any(slots.get(p, {}).get("required") for p in ps):
+                out.append(("co-constraint", "dependent-without:" + ",".join(ps), x))
+        except (ValueError, IndexError, KeyError):
+            pass
+    # ordered timestamps: `a = self.get('p')` ... `(b < a)` / `(b <= a)`
+    env = dict(_re.findall(r"(\w+) = self\.get\('(\w+)'\)", src))
+    for m in _re.finditer(r"\((\w+) (<=|<) (\w+)\)", src):
+        later, op, earlier = env.get(m.group(1)), m.group(2), env.get(m.group(3))
+        if later in slots and earlier in slots:
+            x = dict(o)
+            x[earlier] = "2016-06-01T00:00:00.000Z"
+            x[later] = "2016-06-01T00:00:00.000Z" if (op == "<=" and r.random() < 0.5) else "2015-06-01T00:00:00.000Z"
+            if c["name"] == "NetworkTraffic":
+                x["is_active"] = False
+            out.append(("co-constraint", "%s-before-%s" % (later, earlier), x))
+    n = c["name"]
+    if n == "NetworkTraffic" and c["ver"] == "2.1":
+        x = dict(o)
+        x["end"] = "2017-01-01T00:00:00Z"
+        x.pop("start", None)
+        x["is_active"] = True
+        out.append(("co-constraint", "end-and-active", x))
+        x = dict(x)
+        x.pop("is_active")
+        out.append(("co-constraint", "end-without-is_active", x))
+    if n == "Malware" and c["ver"] == "2.1":
+        x = dict(o)
+        x["is_family"] = True
+        x.pop("name", None)
+        out.append(("co-constraint", "family-without-name", x))
+    if n == "Location":
+        x = {k: v for k, v in o.items() if k not in ("region", "country", "latitude", "longitude", "precision")}
+        out.append(("co-constraint", "no-place", x))
+        x = dict(x)
+        x["latitude"] = 10.5
+        x["country"] = "us"
+        out.append(("co-constraint", "latitude-without-longitude", x))
+        x = dict(o)
+        x.pop("latitude", None)
+        x.pop("longitude", None)
+        x["precision"] = 10.0
+        x["country"] = "us"
+        out.append(("co-constraint", "precision-without-coordinates", x))
+    if n == "EmailMessage":
+        x = dict(o)
+        x["is_multipart"] = True
+        x["body"] = "text"
+        x.pop("body_multipart", None)
+        out.append(("co-constraint", "multipart-with-body", x))
+        x = dict(o)
+        x["is_multipart"] = False
+        x["body_multipart"] = [{"body": "part"}]
+        x.pop("body", None)
+        out.append(("co-constraint", "not-multipart-with-parts", x))
+    if n == "MarkingDefinition":
+        tl = copy.deepcopy(r.choice(list(gen.spec["tlp"][c["ver"]].values())))
+        x = dict(tl)
+        x["id"] = "marking-definition--" + gen.uuid()
+        out.append(("co-constraint", "tlp-wrong-id", x))
+        x = dict(tl)
+        x["created"] = "2017-01-20T00:00:01.000Z"
+        out.append(("co-constraint", "tlp-wrong-created", x))
+        if c["ver"] == "2.1":
+            x = {k: v for k, v in o.items() if k not in ("definition", "extensions")}
+            out.append(("co-constraint", "definition_type-without-definition", x))
+    if n == "SocketExt":
+        x = dict(o)
+        x["options"] = r.choice([{"BAD_KEY": 1}, {"SO_RCVTIMEO": "x"}, {"NOUNDERSCORE": 1}, {"SO_X": 1.5}])
+        out.append(("co-constraint", "socket-options", x))
+    if n == "ObservedData" and c["ver"] == "2.1":
+        x = {k: v for k, v in o.items() if k not in ("objects", "object_refs")}
+        out.append(("co-constraint", "neither-objects-nor-refs", x))
+    if n == "Indicator":
+        x = dict(o)
+        x["pattern"] = r.choice(BAD_PATTERNS)
+        out.append(("co-constraint", "bad-pattern", x))
+    return out
